@@ -186,7 +186,8 @@ def native_replay(sc, name, inputs):
 
 def run_property(pid, spec, tier, seed, timeout=None, keep=False, only=None):
     t0 = time.time()
-    hs = [h for h in spec.HARNESSES if tier == "thorough" or h.tier == "quick"]
+    rank = {"quick": 0, "thorough": 1, "deep": 2}
+    hs = [h for h in spec.HARNESSES if rank.get(h.tier, 2) <= rank.get(tier, 0)]
     if only:
         hs = [h for h in hs if re.search(only, h.name)]
     R = {"property": pid, "tier": tier, "seed": seed, "engine": "K", "kernels": [], "violations": [], "inconclusive": [],
